@@ -218,6 +218,8 @@ func (p *Prop[C]) SafeCheck(c C, o *Obs) (f *Fail) {
 			switch e := r.(type) {
 			case BuildError:
 				f = Failf("build", "%v", e.Msg)
+			case *Fail:
+				f = e // a check helper bailed out with a verdict
 			default:
 				cls := "panic"
 				if _, ok := r.(decimal.ErrNaN); ok {
@@ -401,3 +403,19 @@ func CatchNaN(fn func()) (nan bool) {
 	fn()
 	return false
 }
+
+// RecordGrid counts one enumerated (non-random) case in the property's statistics.
+func RecordGrid(id string, o *Obs, c interface{}) {
+	enc, _ := json.Marshal(c)
+	o.Label("grid")
+	statsFor(id).record(o, enc)
+}
+
+// ReportGridFail records the failure of an enumerated case like a search failure.
+func ReportGridFail(t *testing.T, id string, f *Fail, enc []byte) {
+	writeFail(id, f, enc)
+	t.Fatalf("%s violated [%s]: %s\ncase: %s", id, f.Class, f.Msg, truncate(string(enc), 4000))
+}
+
+// WriteStats flushes the statistics of a property (for tests that do not go through Search/Replay).
+func WriteStats(id string) { statsFor(id).write() }
